@@ -522,8 +522,6 @@ def _emit_bwd(doc, name, g, kinds):
     depends on (the two-argument theorems of Props/C19 no longer type-check: a proof obligation, not a crash)."""
     extra = backward_params(kinds, g)
     if not extra:
-        if doc.endswith("`"):
-            return f"/-- `{doc} -/\ndef {name} (grad_output saved : α) : α :=\n  {lean(g)}\n\n"
         return f"/-- `{doc} -/\ndef {name} (grad_output saved : α) : α :=\n  {lean(g)}\n\n"
     note = "; ".join(("`output` = the tensor RETURNED by forward, read when backward runs (in-place edits of the result "
                       "are seen)") if v == "output" else f"`{v}` = `ctx.{v[4:]}` as stashed by forward" for v in extra)
